@@ -36,8 +36,13 @@ def apply_edit(root, m):
     return True
 
 
-def run_on(root, prop):
-    report, mod = mainmod.run_property(prop, "quick", repo=root, quiet=True)
+def load_facts(root):
+    """facts of a scratch copy, to be shared by several properties"""
+    return {"default": mainmod.load_config("default", None, rep.Report("-", "quick"), repo=root)}
+
+
+def run_on(root, prop, facts=None):
+    report, mod = mainmod.run_property(prop, "quick", repo=root, quiet=True, facts_by_cfg=facts)
     known = {k["key"] for k in rep.load_known() if k["property"] == prop and k["status"] == "known"}
     return [v for v in report.violations if v.key not in known]
 
@@ -57,8 +62,9 @@ def run_mutant(m):
         try:
             if m["property"] == "ALL":
                 vs = []
+                facts = load_facts(root)
                 for c in json.load(open(os.path.join(VERIF, "MANIFEST.json")))["checks"]:
-                    vs += run_on(root, c["property_id"])
+                    vs += run_on(root, c["property_id"], facts)
             else:
                 vs = run_on(root, m["property"])
         except Exception as e:
